@@ -7,9 +7,18 @@ Instead of failing closed on that, every function that is not in the reference l
 exist - is inlined at its direct call sites before the rules run, so the rules see the pre-extraction shape
 (and a helper that hides a violating change is looked into rather than trusted).
 
-Only MIR of plain (non-coroutine, non-closure, non-recursive) functions is inlined; `async fn` helpers are
-inlined at the `poll` of their awaited future (see _inline_async).  Anything else new is left alone and the
-rules' own floors decide.  The original bodies stay available under their own paths.
+ * plain functions/methods are inlined at their call terminators;
+ * `async fn` helpers are inlined at the `poll` of their directly awaited future (`helper(..).await`): the
+   coroutine body replaces the poll call, its captured arguments are bound at the call that created the future,
+   and its result is wrapped in Poll::Ready;
+ * jump threading: a path of the helper that ends with a known variant of its result (an `Ok(..)`/`Err(..)`
+   aggregate or the residual of a `?`) continues at the arm which the caller's test of that result selects
+   (`match`, `?`, the Ready/Pending switch of an await).  Only blocks without side effects (moves, drops,
+   discriminant reads, Try::branch) are duplicated for this, so call sites are never multiplied.
+
+Recursive helpers, helpers awaited through a combinator (timeout(..), select!), closures and anything larger
+than MAX_BLOCKS are left alone; the rules' own floors then decide (fail closed).  The original bodies stay
+available under their own paths.
 """
 import copy
 import json
@@ -17,8 +26,9 @@ import os
 
 VERIF = os.path.dirname(os.path.dirname(os.path.abspath(__file__)))
 KNOWN = os.path.join(VERIF, "rules", "spec", "known_fns.json")
-MAX_BLOCKS = 400
+MAX_BLOCKS = 600
 MAX_ROUNDS = 4
+CHAIN_LIMIT = 60
 
 
 def load_known():
@@ -28,12 +38,23 @@ def load_known():
         return set(json.load(f)["functions"])
 
 
-def _shift(x, loff, boff, clo_alias):
-    """Deep-copy a MIR fragment with locals shifted by loff (block numbers are handled by the caller)."""
+# ------------------------------------------------------------------------------------------------ renaming
+
+def _shift(x, loff, clo_alias, upvars=None):
+    """Deep-copy a MIR fragment with locals shifted by loff.  `upvars` (async): {field index -> caller local}
+    replaces places rooted at `_1.<field>` of a coroutine body by the local bound to that captured argument."""
     if isinstance(x, dict):
         if "l" in x and "p" in x and isinstance(x["l"], int):
-            return {"l": x["l"] + loff,
-                    "p": [({"index": e["index"] + loff} if isinstance(e, dict) and set(e) == {"index"} else copy.deepcopy(e)) for e in x["p"]]}
+            l, p = x["l"], x["p"]
+            if upvars is not None and l == 1:
+                q = [e for e in p]
+                # (*_1).f or _1.f
+                k = 0
+                while k < len(q) and q[k] == "deref":
+                    k += 1
+                if k < len(q) and isinstance(q[k], dict) and "f" in q[k] and q[k].get("i") in upvars:
+                    return {"l": upvars[q[k]["i"]], "p": [_shift_proj(e, loff) for e in q[k + 1:]]}
+            return {"l": l + loff, "p": [_shift_proj(e, loff) for e in p]}
         if x.get("k") in ("live", "dead") and "l" in x:
             return {"k": x["k"], "l": x["l"] + loff}
         out = {}
@@ -41,78 +62,26 @@ def _shift(x, loff, boff, clo_alias):
             if k == "def" and isinstance(v, str) and v in clo_alias:
                 out[k] = clo_alias[v]
             else:
-                out[k] = _shift(v, loff, boff, clo_alias)
+                out[k] = _shift(v, loff, clo_alias, upvars)
         return out
     if isinstance(x, list):
-        return [_shift(v, loff, boff, clo_alias) for v in x]
+        return [_shift(v, loff, clo_alias, upvars) for v in x]
     return x
 
 
-def _retarget(t, boff, ret_to, unwind_to):
-    k = t["k"]
-    for f in ("target", "otherwise", "imaginary", "resume", "drop"):
+def _shift_proj(e, loff):
+    if isinstance(e, dict) and set(e) == {"index"}:
+        return {"index": e["index"] + loff}
+    return copy.deepcopy(e)
+
+
+def _retarget(t, boff):
+    for f in ("target", "otherwise", "imaginary", "resume", "drop", "unwind"):
         if isinstance(t.get(f), int):
             t[f] += boff
-    if isinstance(t.get("unwind"), int):
-        t["unwind"] += boff
-    if k == "switch":
+    if t["k"] == "switch":
         t["targets"] = [[v, b + boff] for v, b in t["targets"]]
     return t
-
-
-def inline_call(caller, bb, callee, callee_path, clo_alias):
-    """Inline `callee` (raw body dict) at the call terminating block bb of `caller` (raw body dict, mutated)."""
-    call = caller["blocks"][bb]["term"]
-    loff = len(caller["locals"])
-    boff = len(caller["blocks"])
-    caller["locals"].extend(copy.deepcopy(callee["locals"]))
-    for dbg in callee.get("debug", []):
-        caller.setdefault("debug", []).append({"name": dbg["name"], "place": _shift(dbg["place"], loff, boff, clo_alias), "inlined_from": callee_path})
-    cont = call["target"]
-    unwind = call.get("unwind")
-    span = call.get("span")
-    # argument moves
-    stmts = caller["blocks"][bb]["stmts"]
-    for i, a in enumerate(call["args"]):
-        stmts.append({"k": "assign", "place": {"l": loff + 1 + i, "p": []}, "rv": {"use": copy.deepcopy(a)}, "span": span, "inl": "arg"})
-    caller["blocks"][bb]["term"] = {"k": "goto", "target": boff, "inlined_call": callee_path, "span": span}
-    ret_blocks = []
-    for ci, blk in enumerate(callee["blocks"]):
-        nb = {"cleanup": blk["cleanup"], "stmts": _shift(blk["stmts"], loff, boff, clo_alias), "inlined_from": callee_path}
-        t = _shift(blk["term"], loff, boff, clo_alias)
-        if t["k"] == "return":
-            nb["stmts"].append({"k": "assign", "place": copy.deepcopy(call["dest"]), "rv": {"use": {"move": {"l": loff, "p": []}}}, "span": span, "inl": "ret"})
-            t = {"k": "goto", "target": cont} if cont is not None else {"k": "unreachable"}
-            ret_blocks.append(ci)
-        elif t["k"] == "resume":
-            t = {"k": "goto", "target": unwind} if isinstance(unwind, int) else {"k": "resume"}
-        else:
-            t = _retarget(t, boff, cont, unwind)
-        nb["term"] = t
-        caller["blocks"].append(nb)
-    # jump threading: a path of the helper that ends with a known variant of its result (Ok(..) built, or the
-    # residual of a `?`) continues at the arm the caller's test of that result selects, not at the test itself
-    if cont is not None and not call["dest"]["p"]:
-        variants = _ret_variants(callee)
-        made = {}
-        for rb in ret_blocks:
-            for ci, blk in enumerate(callee["blocks"]):
-                if rb not in _succ_fields(blk["term"]) or blk["cleanup"]:
-                    continue
-                v = variants[ci]
-                if v in (None, "?"):
-                    continue
-                if (rb, v) not in made:
-                    tt = _thread_target(caller, cont, call["dest"], v)
-                    if tt is None:
-                        made[(rb, v)] = None
-                    else:
-                        src = caller["blocks"][rb + boff]
-                        caller["blocks"].append({"cleanup": False, "stmts": copy.deepcopy(src["stmts"]), "term": {"k": "goto", "target": tt},
-                                                 "inlined_from": callee_path, "threaded": v})
-                        made[(rb, v)] = len(caller["blocks"]) - 1
-                if made[(rb, v)] is not None:
-                    _redirect(caller["blocks"][ci + boff]["term"], rb + boff, made[(rb, v)])
 
 
 def _succ_fields(t):
@@ -132,6 +101,8 @@ def _redirect(t, old, new):
     if t["k"] == "switch":
         t["targets"] = [[v, (new if b == old else b)] for v, b in t["targets"]]
 
+
+# ------------------------------------------------------------------------------------------------ return variants
 
 def _ret_variants(callee):
     """variant name of the return place at the end of each block of the callee ('?' = unknown)."""
@@ -166,68 +137,265 @@ def _ret_variants(callee):
     return st_out
 
 
-def _clone_stmts(stmts):
-    return copy.deepcopy(stmts)
+# ------------------------------------------------------------------------------------------------ jump threading
+
+BRANCH_MAP = {"Ok": ("Continue", None), "Some": ("Continue", None), "Err": ("Break", ("Err", None)), "None": ("Break", ("None", None))}
 
 
-def _thread_target(caller, cont, dest, variant):
-    """A block that does what `cont` does for a callee result of the given variant, skipping the test of the
-    result's discriminant (jump threading), or None when `cont` is not a recognisable test of `dest`."""
-    if cont is None or variant in (None, "?"):
+def _thread_chain(caller, start, tracked):
+    """Follow the side-effect-free chain of blocks starting at `start`, with `tracked` = {local: (variant, inner)}
+    describing values whose enum variant is known on this path.  Blocks are cloned as long as the chain is linear
+    and a switch on the discriminant of a tracked value is replaced by a goto to the arm it selects.  Returns the
+    index of the first block of the specialised chain, or None when nothing could be resolved."""
+    blocks = caller["blocks"]
+    tracked = dict(tracked)
+    discr = {}
+    first = None
+    prev = None
+    cur = start
+    gained = False
+    seen = set()
+
+    def emit(stmts, term):
+        nonlocal first, prev
+        blocks.append({"cleanup": False, "stmts": stmts, "term": term, "threaded": True})
+        idx = len(blocks) - 1
+        if first is None:
+            first = idx
+        if prev is not None:
+            pt = blocks[prev]["term"]
+            pt["target"] = idx
+        prev = idx
+        return idx
+
+    for _ in range(CHAIN_LIMIT):
+        if cur is None or cur in seen or not (tracked or discr):
+            break
+        seen.add(cur)
+        blk = blocks[cur]
+        if blk.get("cleanup"):
+            break
+        for s in blk["stmts"]:
+            if s["k"] != "assign":
+                continue
+            dst, rv = s["place"], s["rv"]
+            val = None
+            dk = None
+            if "use" in rv:
+                src = rv["use"].get("move") or rv["use"].get("copy")
+                if src and src["l"] in tracked:
+                    vt = tracked[src["l"]]
+                    if not src["p"]:
+                        val = vt
+                    elif len(src["p"]) == 2 and isinstance(src["p"][0], dict) and src["p"][0].get("variant") == vt[0] \
+                            and isinstance(src["p"][1], dict) and src["p"][1].get("i") == 0 and vt[1]:
+                        val = vt[1]
+            elif "discr" in rv and not rv["discr"]["p"] and rv["discr"]["l"] in tracked:
+                dk = (tracked[rv["discr"]["l"]][0], rv.get("variants") or {})
+            if not dst["p"]:
+                tracked.pop(dst["l"], None)
+                discr.pop(dst["l"], None)
+                if val is not None:
+                    tracked[dst["l"]] = val
+                if dk is not None:
+                    discr[dst["l"]] = dk
+        t = blk["term"]
+        k = t["k"]
+        if k in ("goto", "false_edge", "false_unwind", "drop", "assert"):
+            nt = copy.deepcopy(t)
+            emit(copy.deepcopy(blk["stmts"]), nt)
+            cur = t["target"]
+            continue
+        if k == "switch":
+            on = t["on"].get("move") or t["on"].get("copy")
+            if on and not on["p"] and on["l"] in discr:
+                name, vmap = discr[on["l"]]
+                vals = [int(x) for x, nm in vmap.items() if nm == name]
+                if len(vals) == 1:
+                    tgt = t["otherwise"]
+                    for v, b in t["targets"]:
+                        if v == vals[0]:
+                            tgt = b
+                    emit(copy.deepcopy(blk["stmts"]), {"k": "goto", "target": tgt})
+                    gained = True
+                    cur = tgt
+                    continue
+            break
+        if k == "call" and t["callee"]["name"] == "branch" and len(t["args"]) == 1 and isinstance(t.get("target"), int) and not t["dest"]["p"]:
+            a = t["args"][0].get("move") or t["args"][0].get("copy")
+            if a and not a["p"] and a["l"] in tracked and tracked[a["l"]][0] in BRANCH_MAP:
+                emit(copy.deepcopy(blk["stmts"]), copy.deepcopy(t))
+                tracked[t["dest"]["l"]] = BRANCH_MAP[tracked[a["l"]][0]]
+                cur = t["target"]
+                continue
+        break
+    if not gained:
+        # drop the useless clones
+        if first is not None:
+            del blocks[first:]
         return None
-    blk = caller["blocks"][cont]
-    t = blk["term"]
+    # link the end of the specialised chain back into the original code
+    if prev is not None and cur is not None:
+        pt = blocks[prev]["term"]
+        if pt["k"] != "goto" or pt["target"] != cur:
+            # last emitted block still points at an original successor: that is `cur`
+            pt["target"] = cur
+    return first
 
-    def switch_target(block, place, var):
-        d_local = None
-        vmap = None
-        for s in block["stmts"]:
-            if s["k"] == "assign" and "discr" in s["rv"] and s["rv"]["discr"] == place and not s["place"]["p"]:
-                d_local, vmap = s["place"]["l"], s["rv"].get("variants") or {}
-        tt = block["term"]
-        if d_local is None or tt["k"] != "switch":
-            return None
-        on = tt["on"].get("move") or tt["on"].get("copy")
-        if not on or on["l"] != d_local or on["p"]:
-            return None
-        vals = [int(k) for k, nm in vmap.items() if nm == var]
-        if len(vals) != 1:
-            return None
-        for v, b in tt["targets"]:
-            if v == vals[0]:
-                return b
-        return tt["otherwise"]
 
-    tgt = switch_target(blk, dest, variant)
-    if tgt is not None:
-        caller["blocks"].append({"cleanup": False, "stmts": _clone_stmts(blk["stmts"]), "term": {"k": "goto", "target": tgt}, "threaded": variant})
-        return len(caller["blocks"]) - 1
-    # `?` on the result:  _t = move dest; _c = Try::branch(_t) -> bbN;  bbN: switch discr(_c)
-    if t["k"] == "call" and t["callee"]["name"] == "branch" and isinstance(t.get("target"), int) and len(t["args"]) == 1:
-        a = t["args"][0].get("move") or t["args"][0].get("copy")
-        src = None
-        if a and not a["p"]:
-            if a == dest:
-                src = dest
-            for s in blk["stmts"]:
-                if s["k"] == "assign" and s["place"] == a and "use" in s["rv"]:
-                    u = s["rv"]["use"].get("move") or s["rv"]["use"].get("copy")
-                    if u == dest:
-                        src = dest
-        if src is None:
+# ------------------------------------------------------------------------------------------------ inlining
+
+def _append_callee(caller, callee, callee_path, loff, clo_alias, upvars, dest, cont, unwind, span, wrap_ready):
+    """Append the callee's blocks; returns (entry index, list of (callee block index -> caller index) return blocks)."""
+    boff = len(caller["blocks"])
+    ret_blocks = []
+    for ci, blk in enumerate(callee["blocks"]):
+        nb = {"cleanup": blk["cleanup"], "stmts": _shift(blk["stmts"], loff, clo_alias, upvars), "inlined_from": callee_path}
+        t = _shift(blk["term"], loff, clo_alias, upvars)
+        if t["k"] == "return":
+            if wrap_ready:
+                rv = {"agg": "adt", "adt": "std::task::Poll", "variant": "Ready", "vi": 0, "fields": ["0"], "ops": [{"move": {"l": loff, "p": []}}]}
+            else:
+                rv = {"use": {"move": {"l": loff, "p": []}}}
+            nb["stmts"].append({"k": "assign", "place": copy.deepcopy(dest), "rv": rv, "span": span, "inl": "ret"})
+            t = {"k": "goto", "target": cont} if cont is not None else {"k": "unreachable"}
+            ret_blocks.append(ci)
+        elif t["k"] == "resume":
+            t = {"k": "goto", "target": unwind} if isinstance(unwind, int) else {"k": "resume"}
+        elif t["k"] == "coroutine_drop":
+            t = {"k": "coroutine_drop"}
+        else:
+            t = _retarget(t, boff)
+        nb["term"] = t
+        caller["blocks"].append(nb)
+    return boff, ret_blocks
+
+
+def _thread_returns(caller, callee, boff, ret_blocks, dest, cont, wrap_ready):
+    if cont is None or dest["p"]:
+        return
+    variants = _ret_variants(callee)
+    made = {}
+    for rb in ret_blocks:
+        for ci, blk in enumerate(callee["blocks"]):
+            if rb not in _succ_fields(blk["term"]) or blk["cleanup"]:
+                continue
+            v = variants[ci]
+            inner = (v, None) if v not in (None, "?") else None
+            if wrap_ready:
+                vt = ("Ready", inner)
+            elif inner:
+                vt = inner
+            else:
+                continue
+            key = (rb, v if inner else "?")
+            if key not in made:
+                tt = _thread_chain(caller, cont, {dest["l"]: vt})
+                if tt is None:
+                    made[key] = None
+                else:
+                    src = caller["blocks"][rb + boff]
+                    caller["blocks"].append({"cleanup": False, "stmts": copy.deepcopy(src["stmts"]), "term": {"k": "goto", "target": tt},
+                                             "inlined_from": src.get("inlined_from"), "threaded": True})
+                    made[key] = len(caller["blocks"]) - 1
+            if made[key] is not None:
+                _redirect(caller["blocks"][ci + boff]["term"], rb + boff, made[key])
+
+
+def inline_call(caller, bb, callee, callee_path, clo_alias):
+    """Inline `callee` (raw body dict) at the call terminating block bb of `caller` (raw body dict, mutated)."""
+    call = caller["blocks"][bb]["term"]
+    loff = len(caller["locals"])
+    caller["locals"].extend(copy.deepcopy(callee["locals"]))
+    for dbg in callee.get("debug", []):
+        caller.setdefault("debug", []).append({"name": dbg["name"], "place": _shift(dbg["place"], loff, clo_alias), "inlined_from": callee_path})
+    cont = call["target"]
+    unwind = call.get("unwind")
+    span = call.get("span")
+    stmts = caller["blocks"][bb]["stmts"]
+    for i, a in enumerate(call["args"]):
+        stmts.append({"k": "assign", "place": {"l": loff + 1 + i, "p": []}, "rv": {"use": copy.deepcopy(a)}, "span": span, "inl": "arg"})
+    entry, ret_blocks = _append_callee(caller, callee, callee_path, loff, clo_alias, None, call["dest"], cont, unwind, span, False)
+    caller["blocks"][bb]["term"] = {"k": "goto", "target": entry, "inlined_call": callee_path, "span": span}
+    _thread_returns(caller, callee, entry, ret_blocks, call["dest"], cont, False)
+
+
+def _single_def(body, local):
+    """the unique statement/terminator defining `local` (whole-local assignment), or None"""
+    found = None
+    for bi, blk in enumerate(body["blocks"]):
+        for s in blk["stmts"]:
+            if s["k"] == "assign" and s["place"]["l"] == local and not s["place"]["p"]:
+                if found is not None:
+                    return None
+                found = ("assign", bi, s)
+        t = blk["term"]
+        if t["k"] == "call" and t["dest"]["l"] == local and not t["dest"]["p"]:
+            if found is not None:
+                return None
+            found = ("call", bi, t)
+    return found
+
+
+def _future_origin(body, op, helper_path):
+    """Follow a pinned-future operand of a poll call back to the call `helper_path(args)` that created it."""
+    p = op.get("move") or op.get("copy")
+    for _ in range(12):
+        if p is None:
             return None
-        cf = {"Ok": "Continue", "Some": "Continue", "Err": "Break", "None": "Break"}.get(variant)
-        nxt = caller["blocks"][t["target"]]
-        tgt2 = switch_target(nxt, t["dest"], cf) if cf else None
-        if tgt2 is None:
+        d = _single_def(body, p["l"])
+        if d is None:
             return None
-        caller["blocks"].append({"cleanup": False, "stmts": _clone_stmts(nxt["stmts"]), "term": {"k": "goto", "target": tgt2}, "threaded": variant})
-        a2 = len(caller["blocks"]) - 1
-        nt = copy.deepcopy(t)
-        nt["target"] = a2
-        caller["blocks"].append({"cleanup": False, "stmts": _clone_stmts(blk["stmts"]), "term": nt, "threaded": variant})
-        return len(caller["blocks"]) - 1
+        if d[0] == "assign":
+            rv = d[2]["rv"]
+            if "use" in rv:
+                p = rv["use"].get("move") or rv["use"].get("copy")
+            elif "ref" in rv:
+                p = rv["ref"]
+            else:
+                return None
+            continue
+        t = d[2]
+        if t["callee"]["path"] == helper_path:
+            return d[1], t
+        if t["callee"]["name"] in ("new_unchecked", "into_future", "new", "as_mut", "deref_mut") and t["args"]:
+            p = t["args"][0].get("move") or t["args"][0].get("copy")
+            continue
+        return None
     return None
+
+
+def inline_poll(caller, bb, coro, coro_path, helper_path, clo_alias):
+    """Inline the coroutine body of `async fn helper` at the poll call in block bb (a direct `.await`)."""
+    poll = caller["blocks"][bb]["term"]
+    org = _future_origin(caller, poll["args"][0], helper_path)
+    if org is None:
+        return False
+    cbb, create = org
+    loff = len(caller["locals"])
+    caller["locals"].extend(copy.deepcopy(coro["locals"]))
+    # captured arguments: one fresh local per argument of the creating call, bound where the future is created
+    upvars = {}
+    for i, a in enumerate(create["args"]):
+        ty = (create.get("arg_tys") or [None] * len(create["args"]))[i] or "?"
+        caller["locals"].append({"ty": ty, "user": False})
+        u = len(caller["locals"]) - 1
+        upvars[i] = u
+        caller["blocks"][cbb]["stmts"].append({"k": "assign", "place": {"l": u, "p": []}, "rv": {"use": copy.deepcopy(a)},
+                                               "span": create.get("span"), "inl": "upvar"})
+    for dbg in coro.get("debug", []):
+        caller.setdefault("debug", []).append({"name": dbg["name"], "place": _shift(dbg["place"], loff, clo_alias, upvars), "inlined_from": coro_path})
+    cont = poll["target"]
+    unwind = poll.get("unwind")
+    span = poll.get("span")
+    stmts = caller["blocks"][bb]["stmts"]
+    if len(poll["args"]) > 1:
+        stmts.append({"k": "assign", "place": {"l": loff + 2, "p": []}, "rv": {"use": copy.deepcopy(poll["args"][1])}, "span": span, "inl": "arg"})
+    create["inlined_future"] = coro_path   # the call that builds the future stays; its body now runs at the poll site
+    entry, ret_blocks = _append_callee(caller, coro, coro_path, loff, clo_alias, upvars, poll["dest"], cont, unwind, span, True)
+    caller["blocks"][bb]["term"] = {"k": "goto", "target": entry, "inlined_call": coro_path, "span": span}
+    _thread_returns(caller, coro, entry, ret_blocks, poll["dest"], cont, True)
+    return True
 
 
 def _direct_callees(body):
@@ -247,17 +415,23 @@ def apply(raw, known=None):
     if known is None:
         return rep
     bodies = raw["bodies"]
-    new = [p for p, b in bodies.items() if p not in known and "{closure" not in p and "{impl" not in p.rsplit("::", 1)[-1]]
-    new = [p for p in new if not any(seg.startswith("tests") or seg == "test" for seg in p.split("::"))]
+    new = [p for p in bodies if p not in known and "{closure" not in p]
     rep["new_functions"] = sorted(new)
-    cand = {}
+    cand, acand = {}, {}
     for p in new:
         b = bodies[p]
         if b["kind"] not in ("fn", "method"):
             rep["skipped"].append((p, "kind " + b["kind"]))
             continue
-        if b.get("is_async"):
-            rep["skipped"].append((p, "async fn (not inlined)"))
+        cp = p + "::{closure#0}"
+        if b.get("is_async") and cp in bodies and bodies[cp]["kind"] == "coroutine":
+            c = bodies[cp]
+            if len(c["blocks"]) > MAX_BLOCKS:
+                rep["skipped"].append((p, "too large"))
+            elif cp in _direct_callees(c) or p in _direct_callees(c):
+                rep["skipped"].append((p, "recursive"))
+            else:
+                acand[p] = cp
             continue
         if len(b["blocks"]) > MAX_BLOCKS:
             rep["skipped"].append((p, "too large"))
@@ -266,36 +440,44 @@ def apply(raw, known=None):
             rep["skipped"].append((p, "recursive"))
             continue
         cand[p] = b
-    if not cand:
+    if not cand and not acand:
         return rep
-    # pristine copies: inline the original helper body (helpers calling helpers are resolved by rounds)
     pristine = {p: copy.deepcopy(b) for p, b in cand.items()}
+    pristine.update({cp: copy.deepcopy(bodies[cp]) for cp in acand.values()})
+    coro_of = {cp: p for p, cp in acand.items()}
     for rnd in range(MAX_ROUNDS):
         did = False
         for path, body in list(bodies.items()):
-            if path in cand and rnd == 0:
-                pass
             nblocks = len(body["blocks"])
+            if nblocks > 6000:
+                continue
             for bb in range(nblocks):
                 t = body["blocks"][bb]["term"]
                 if t["k"] != "call":
                     continue
                 cp = t["callee"]["path"]
-                if cp not in cand or cp == path:
+                is_sync = cp in cand and cp != path
+                is_poll = cp in coro_of and cp != path and not path.startswith(coro_of[cp] + "::")
+                if not (is_sync or is_poll):
                     continue
-                if len(body["blocks"]) > 4000:
-                    continue
-                # closures of the helper become visible as children of the caller
+                owner = cp if is_sync else coro_of[cp]
                 clo_alias = {}
                 for q in list(bodies):
-                    if q.startswith(cp + "::{"):
-                        alias = path + "::{inl#" + cp.rsplit("::", 1)[-1] + "}" + q[len(cp):]
+                    if q.startswith(cp + "::{") and q != cp:
+                        alias = path + "::{inl#" + owner.rsplit("::", 1)[-1] + "}" + q[len(cp):]
                         clo_alias[q] = alias
                         if alias not in bodies:
                             bodies[alias] = bodies[q]
-                inline_call(body, bb, pristine[cp], cp, clo_alias)
-                rep["inlined"].append((cp, path))
-                did = True
+                if is_sync:
+                    inline_call(body, bb, pristine[cp], cp, clo_alias)
+                    rep["inlined"].append((cp, path))
+                    did = True
+                else:
+                    if inline_poll(body, bb, pristine[cp], cp, owner, clo_alias):
+                        rep["inlined"].append((cp, path))
+                        did = True
+                    else:
+                        rep["skipped"].append((owner, "awaited through a combinator in " + path))
         if not did:
             break
     return rep
